@@ -240,6 +240,37 @@ func runVerdict(vc vcase) {
 	d := scratch(files)
 	args := argsOf(vc.Case.Cmd)
 	stdin := ""
+	if strings.HasPrefix(vc.Case.Src, "dir-") || vc.Case.Src == "glob" {
+		// the inputs lie in a directory q: flat; the last one in a sub-directory; next to a dot-file; next to a file
+		// of another extension - and are given as the directory (-r) or as a glob pattern
+		put := func(rel, text string) {
+			p := filepath.Join(d, rel)
+			if err := os.MkdirAll(filepath.Dir(p), 0o755); err != nil {
+				core.Fatalf("%v", err)
+			}
+			if err := os.WriteFile(p, []byte(text), 0o644); err != nil {
+				core.Fatalf("%v", err)
+			}
+		}
+		for i, n := range names {
+			rel := filepath.Join("q", n)
+			if vc.Case.Src == "dir-nested" && i == len(names)-1 {
+				rel = filepath.Join("q", "sub", n)
+			}
+			put(rel, content[vc.Case.Ins[i]])
+		}
+		switch vc.Case.Src {
+		case "dir-dotfile":
+			put(filepath.Join("q", ".gitkeep"), "")
+		case "dir-other-ext":
+			put(filepath.Join("q", "notes.txt"), "this is not SQL ((")
+		}
+		if vc.Case.Src == "glob" {
+			args = append(args, "q/*.sql")
+		} else {
+			args = append(args, "-r", "q")
+		}
+	}
 	switch vc.Case.Src {
 	case "files":
 		args = append(args, names...)
